@@ -4,6 +4,7 @@ C01 — Compress then decompress returns the original packet, bit for bit.
 import Schc.Proofs.Roundtrip
 import Schc.Proofs.StackRoundtrip
 import Schc.Proofs.StackRoundtrip4
+import Schc.Proofs.StackRestoreSctp
 
 namespace Schc
 
@@ -148,5 +149,25 @@ example :
       (R 16 1000) (R 16 2000) (R 16 10) (R 16 0xbf08) [(Gen.payloadId, R 16 0x6869)] := by
   refine ⟨by decide +kernel, by decide +kernel, by decide +kernel, by decide +kernel, by decide +kernel, by decide +kernel,
     by decide +kernel, by decide +kernel, by decide +kernel, ⟨ABuf.ofNat 16 0xbf08, by decide +kernel, by decide +kernel⟩⟩
+
+/-- SCTP packets with the checksum as a *compute* field: for packets carrying the CRC-32c RFC 9260 prescribes
+    (`ValidS`; C09 equates the model's arithmetic with the bit-by-bit CRC) the round trip holds -/
+theorem C01_sctp_compute (p : Packet) (r : Rule) (pf4 restF : List Field) (rf4 restR : List RuleField)
+    (hp : p.fields = pf4 ++ restF) (hr : r.fields = rf4 ++ restR) (h4p : pf4.length = 4) (h4r : rf4.length = 4)
+    (hids : pf4.map (·.id) = idsS)
+    (hn : r.nature = .compression) (hdir : ∀ rf ∈ r.fields, Spec.dirApplies p.dir rf.dir = true)
+    (happ : Spec.applicable p r = true) (hfit : AllFitsC p.fields r.fields)
+    (hraw : p.raw.bits = p.fields.flatMap (·.value.bits) ++ p.payload.bits)
+    (hncR : ∀ rf ∈ restR, rf.cda ≠ .compute)
+    (hvalid : ValidS (fv pf4 0) (fv pf4 1) (fv pf4 2) (fv pf4 3) (restOf restF restR p.payload)) :
+    ∃ c, compress p r = .ok c ∧ decompress c r = .ok ⟨p.raw.bits, .right⟩ :=
+  roundtrip_sctp p r pf4 restF rf4 restR hp hr h4p h4r hids hn hdir happ hfit hraw hncR hvalid
+
+/-- non-vacuity of `ValidS`: ports 1000 → 2000, tag 0x01020304, one COOKIE ACK chunk: checksum bytes 3e 57 62 66 -/
+example :
+    let R (w v : Nat) : ABuf := ⟨Bits.ofNat w v, .right⟩
+    ValidS (R 16 1000) (R 16 2000) (R 32 0x01020304) (R 32 0x3e576266)
+      [(Gen.SCTPF.CHUNK_TYPE, R 8 11), (Gen.SCTPF.CHUNK_FLAGS, R 8 0), (Gen.SCTPF.CHUNK_LENGTH, R 16 4), (Gen.payloadId, R 0 0)] := by
+  refine ⟨by decide +kernel, ⟨⟨Bits.ofNat 32 0x3e576266, .left⟩, by decide +kernel, by decide +kernel⟩⟩
 
 end Schc
